@@ -21,7 +21,10 @@ CORRESPONDENCE = ("Model.Cis.{node_induced_connected_subgraphs,nics_inner,enumer
                   "_node_induced_connected_subgraphs,enumerateCIS,is_valid_extension,is_existing_extension}. The model ignores the optional "
                   "DAG argument (pure bookkeeping that must not influence what is yielded): ~30% of the cases are ALSO run with "
                   "DAG=nx.DiGraph(), both runs must pass the same checks and yield identical lists (runtime invariant); the contents "
-                  "of the DAG itself are not checked. A yielded list is read at the moment it is yielded. "
+                  "of the DAG itself are not checked. A yielded list is read at the moment it is yielded. The graph handed to the code "
+                  "is rebuilt with a fresh object for every occurrence of an id (node key, adjacency key), and in ~85% of the cases "
+                  "the anchor argument is a further fresh object: equal to the node but not identical with it wherever CPython "
+                  "allows (ints outside the small-int cache, strings of length >= 2, tuples); the harness asserts this. "
                   "compared: list(generator) as a family of node sets with multiplicities (yields_equivb: the property does not fix the "
                   "order of the yields nor the order inside a yielded list), or the exception class. With the pinned code the "
                   "model also reproduces the exact order (yields_eqb held on all 31564 thorough-tier cases)")
@@ -36,6 +39,10 @@ RULE = ("quick: EVERY labelled simple graph on 1-4 nodes (all edge subsets, ids 
         "up to 14 nodes (at most 400 connected sets per case). Non-integer ids are mapped to distinct integers by the harness "
         "before the graph is handed to the model (the code uses ids only as dict keys and compares them with ==). "
         "About 30% of all cases (chosen by the case index) are run both without and with DAG=nx.DiGraph(). "
+        "Further integer id schemes with |id| > 1000 (big: 1001..10^6, bigneg: -10^6..-1001, bigmixed, huge: around 2^70) are used "
+        "by ~40% of the integer re-identifications and by one extra variant of every atlas graph with <= 4 (thorough: <= 6) nodes "
+        "x every anchor, so that equal ints are distinct objects; non-integer names have length >= 2. The anchor argument is a "
+        "fresh equal object in ~85% of the cases and the graph's own node object in the rest (histogram class anchor_obj). "
         "non-trivial = anchor is a node and at least 2 sets are yielded; distinct = distinct (node order, adjacency "
         "order, anchor, id naming)")
 TRUSTED = ["model of networkx.Graph (Base/NX.v: node and adjacency dict order; relabel_nodes, neighbors) - validated by the exact comparison",
@@ -91,7 +98,7 @@ def make_names(rng, nodes):
     nums = rng.sample(range(100), len(nodes))
     for k, n in enumerate(nodes):
         if style == "str":
-            names[n] = pool[k] if k < 26 else "z%d" % k
+            names[n] = pool[k % 26] * 2 + ("" if k < 26 else str(k))   # length >= 2: run-time copies are new objects
         elif style == "strnum":
             names[n] = "n%d" % nums[k]
         elif style == "tuple":
@@ -148,6 +155,7 @@ def mk(g, anchor, scheme, src, names=None, style=None):
 
 
 INT_SCHEMES = gens.ID_SCHEMES + ["negshift", "belown"]
+BIG_SCHEMES = ["big", "bigneg", "bigmixed", "huge"]      # every |id| > 1000: outside CPython's small-int cache
 
 
 def reid2(rng, g, anchor, scheme=None, anchor_id=None):
@@ -168,6 +176,15 @@ def reid2(rng, g, anchor, scheme=None, anchor_id=None):
         if n >= 2 and all(x >= 0 for x in new):
             new[1] = -rng.randint(1, n + 1)
         rng.shuffle(new)
+    elif scheme == "big":
+        new = sorted(rng.sample(range(1001, 10 ** 6), n))
+    elif scheme == "bigneg":
+        new = sorted(rng.sample(range(-10 ** 6, -1000), n))
+    elif scheme == "bigmixed":
+        new = sorted(rng.choice([-1, 1]) * x for x in rng.sample(range(1001, 5000), n))
+    elif scheme == "huge":
+        base = 2 ** 70 + rng.randint(0, 1000)
+        new = sorted(rng.choice([-1, 1]) * (base + x) for x in rng.sample(range(0, 4 * n + 4), n))
     elif scheme == "contig":
         new = list(range(n))
     elif scheme == "offset":
@@ -209,7 +226,13 @@ def variants(rng, g, a, src, kinds):
         if kind == "plain":
             yield mk(g, a, "asgiven", src)
         elif kind == "reid":
-            h, scheme, m = reid2(rng, g, a, anchor_id=rng.choice([None, None, 0, "n-1"]))
+            if rng.random() < 0.4:
+                h, scheme, m = reid2(rng, g, a, scheme=rng.choice(BIG_SCHEMES))
+            else:
+                h, scheme, m = reid2(rng, g, a, anchor_id=rng.choice([None, None, 0, "n-1"]))
+            yield mk(h, m[a], scheme, src)
+        elif kind == "big":
+            h, scheme, m = reid2(rng, g, a, scheme=rng.choice(BIG_SCHEMES))
             yield mk(h, m[a], scheme, src)
         elif kind == "zero":
             # all ids below n, some negative, the anchor's id is exactly 0
@@ -225,7 +248,16 @@ def variants(rng, g, a, src, kinds):
 def generate(seed, tier, ncases=None):
     it = itertools.islice(_generate(seed, tier), ncases) if ncases else _generate(seed, tier)
     for i, c in enumerate(it):
-        yield _with_dag(seed, i, _with_history(seed, i, c))
+        yield _with_anchor_obj(seed, i, _with_dag(seed, i, _with_history(seed, i, c)))
+
+
+def _with_anchor_obj(seed, i, c):
+    """In ~15% of the cases the anchor argument is the very object that is the graph's node key; otherwise
+    (default) it is a fresh object that is equal to it."""
+    if lib.rng_for(seed, ID + ":anchorobj", i).random() < 0.15:
+        c = dict(c)
+        c["same_obj"] = True
+    return c
 
 
 def _with_dag(seed, i, c):
@@ -265,7 +297,7 @@ def _generate(seed, tier):
             i += 1
             kinds = ["reid", "names"] if quick else ["plain", "reid", "names"]
             if g.number_of_nodes() <= (4 if quick else 6):
-                kinds = kinds + ["zero"]
+                kinds = kinds + ["zero", "big"]
             yield from variants(rng, g, a, "atlas%d" % g.number_of_nodes(), kinds)
     # (3) random sparse graphs
     nrand = 120 if quick else 700
@@ -277,7 +309,7 @@ def _generate(seed, tier):
             a = rng.choice(list(g.nodes))
             if count_connected_sets(g, a, MAX_SETS) <= MAX_SETS:
                 break
-        yield from variants(rng, g, a, "random", [rng.choice(["reid", "reid", "names", "zero"])])
+        yield from variants(rng, g, a, "random", [rng.choice(["reid", "reid", "names", "zero", "big"])])
     # (4) anchors that are not nodes of the graph
     for _ in range(6 if quick else 30):
         rng = lib.rng_for(seed, ID, i)
@@ -331,26 +363,73 @@ def corpus():
 
 
 # ----------------------------------------------------------------------------- implementation
+def fresh(x):
+    """An object equal to x and, wherever CPython allows it, identical with no other object: ints are re-parsed
+    (new object outside the small-int cache -5..256), strings are re-joined from their characters (new object for
+    length >= 2), tuples are rebuilt."""
+    if isinstance(x, bool):
+        return x
+    if isinstance(x, int):
+        return int(str(x))
+    if isinstance(x, str):
+        return "".join(list(x))
+    if isinstance(x, tuple):
+        return tuple(fresh(y) for y in list(x))
+    return x
+
+
+def can_be_distinct(x):
+    """Can an equal object that is not identical be built (see fresh)?"""
+    if isinstance(x, bool):
+        return False
+    if isinstance(x, int):
+        return not -5 <= x <= 256
+    if isinstance(x, str):
+        return len(x) >= 2
+    return isinstance(x, tuple) and len(x) >= 1
+
+
 def named_graph(c):
-    """The graph handed to the implementation: same node / adjacency dict orders, ids renamed."""
+    """The graph handed to the implementation: same node / adjacency dict orders, ids renamed; every occurrence of
+    an id (node key, each adjacency key) is an object of its own."""
     g = c["graph"]
     names = c["names"]
     if names is None:
-        return gens.copy_exact(g), (lambda x: x), (lambda x: x)
+        fwd, back = (lambda x: x), (lambda x: x)
+    else:
+        inv = {}
+        for k, v in names.items():
+            inv[v] = k
+        fwd, back = (lambda x: names.get(x, ("?", x))), (lambda x: inv[x])
     h = nx.Graph()
     for n in g._node:
-        h.add_node(names[n])
+        h.add_node(fresh(fwd(n)), **dict(g._node[n]))
     shared = {}
     for n in g._node:
         for v in g._adj[n]:
             key = frozenset((n, v))
             if key not in shared:
                 shared[key] = dict(g._adj[n][v])
-            h._adj[names[n]][names[v]] = shared[key]
-    inv = {}
-    for k, v in names.items():
-        inv[v] = k
-    return h, (lambda x: names.get(x, ("?", x))), (lambda x: inv[x])
+            h._adj[fwd(n)][fresh(fwd(v))] = shared[key]
+    return h, fwd, back
+
+
+def anchor_object(c, h, fwd):
+    """The anchor argument and its relation to the graph's node object."""
+    value = fwd(c["anchor"])
+    node = next((k for k in h._node if k == value), None)
+    if node is None:
+        return fresh(value), "not_a_node"
+    if c.get("same_obj"):
+        return node, "the_node_object_itself"
+    anchor = fresh(value)
+    if can_be_distinct(value):
+        assert anchor == node and anchor is not node and hash(anchor) == hash(node), (anchor, node)
+        for u in h._adj:
+            for v in h._adj[u]:
+                assert v is not anchor and (v is not node)
+        return anchor, "equal_not_identical"
+    return anchor, "identical(cached_by_CPython)"
 
 
 def snapshot(h):
@@ -361,18 +440,18 @@ def snapshot(h):
 def run_once(c, with_dag):
     """One call on a fresh copy of the case's graph. Every yielded list is read (copied) at the moment it is yielded."""
     h, fwd, back = named_graph(c)
-    anchor = fwd(c["anchor"])
+    anchor, aclass = anchor_object(c, h, fwd)
     if c.get("hist"):
         (a1, a2), (b1, b2) = c["hist"]
         lab = dict(h[fwd(a1)][fwd(a2)])
-        h.remove_edge(fwd(a1), fwd(a2))
-        h.add_edge(fwd(b1), fwd(b2), **lab)
+        h.remove_edge(fresh(fwd(a1)), fresh(fwd(a2)))
+        h.add_edge(fresh(fwd(b1)), fresh(fwd(b2)), **lab)
         try:
             list(node_induced_connected_subgraphs(h, anchor))
         except Exception:  # noqa
             pass
-        h.remove_edge(fwd(b1), fwd(b2))
-        h.add_edge(fwd(a1), fwd(a2), **lab)
+        h.remove_edge(fresh(fwd(b1)), fresh(fwd(b2)))
+        h.add_edge(fresh(fwd(a1)), fresh(fwd(a2)), **lab)
     before = snapshot(h)
     try:
         if with_dag:
@@ -381,19 +460,20 @@ def run_once(c, with_dag):
             gen = node_induced_connected_subgraphs(h, anchor)
         res = [list(sub) for sub in gen]
     except Exception as e:  # noqa
-        return (type(e).__name__, str(e)[:200], snapshot(h) != before)
+        return (type(e).__name__, str(e)[:200], snapshot(h) != before, aclass)
     mutated = snapshot(h) != before
     try:
         out = [[back(u) for u in sub] for sub in res]
     except Exception as e:  # an id that is not a node of the graph
-        return ("BadIds", repr(res)[:300], mutated)
-    return ("ok", out, mutated)
+        return ("BadIds", repr(res)[:300], mutated, aclass)
+    return ("ok", out, mutated, aclass)
 
 
 def run_impl(c):
-    """(status, yields | message, input mutated?, result of the additional run with DAG=nx.DiGraph() | None)"""
+    """(status, yields | message, input mutated?, result of the additional run with DAG=nx.DiGraph() | None,
+    relation between the anchor argument and the graph's node object)"""
     plain = run_once(c, False)
-    return plain + ((run_once(c, True) if c.get("dag") else None),)
+    return plain[:3] + ((run_once(c, True)[:3] if c.get("dag") else None), plain[3])
 
 
 def same_outcome(a, b):
@@ -446,7 +526,7 @@ def _jname(x):
 
 def describe(c):
     return {"graph": ct.graph_py(c["graph"]), "anchor": c["anchor"], "scheme": c["scheme"], "src": c["src"],
-            "style": c["style"], "hist": c.get("hist"), "dag": bool(c.get("dag")),
+            "style": c["style"], "hist": c.get("hist"), "dag": bool(c.get("dag")), "same_obj": bool(c.get("same_obj")),
             "names": None if c["names"] is None else [[k, _jname(v)] for k, v in c["names"].items()]}
 
 
@@ -455,7 +535,8 @@ def from_json(d):
     if d.get("names") is not None:
         names = {k: (tuple(v) if isinstance(v, list) else v) for k, v in d["names"]}
     return {"graph": ct.graph_from_py(d["graph"]), "anchor": d["anchor"], "scheme": d["scheme"], "src": d["src"],
-            "style": d.get("style"), "names": names, "hist": d.get("hist"), "dag": bool(d.get("dag"))}
+            "style": d.get("style"), "names": names, "hist": d.get("hist"), "dag": bool(d.get("dag")),
+            "same_obj": bool(d.get("same_obj"))}
 
 
 def describe_out(out):
@@ -463,13 +544,16 @@ def describe_out(out):
     d["input_mutated"] = out[2]
     if len(out) > 3 and out[3] is not None:
         d["with_DAG"] = describe_out(out[3])
+    if len(out) > 4:
+        d["anchor_object"] = out[4]
     return d
 
 
 def key(c):
     g = c["graph"]
     names = None if c["names"] is None else tuple(repr(c["names"][n]) for n in g._node)
-    return (tuple((n, tuple(g._adj[n])) for n in g._node), c["anchor"], names, repr(c.get("hist")), bool(c.get("dag")))
+    return (tuple((n, tuple(g._adj[n])) for n in g._node), c["anchor"], names, repr(c.get("hist")), bool(c.get("dag")),
+            bool(c.get("same_obj")))
 
 
 def nontrivial(c, out):
@@ -484,6 +568,7 @@ def classes(c, out):
     yield "ids=" + ("nonint:" + c["style"] if c["names"] is not None else c["scheme"])
     yield "result=" + out[0]
     yield "dag=" + ("yes" if c.get("dag") else "no")
+    yield "anchor_obj=" + out[4]
     if c["names"] is None and c["anchor"] in g:
         yield "anchorid=" + ("0" if c["anchor"] == 0 else "n-1" if c["anchor"] == n - 1 else "other")
         if all(x < n for x in g.nodes) and any(x < 0 for x in g.nodes):
